@@ -1,6 +1,7 @@
 package props
 
 import (
+	"sort"
 	"fmt"
 	"go/ast"
 	"go/token"
@@ -41,6 +42,8 @@ func runC14(p *core.Program, r *core.Report) {
 	r.Rule("C14.geometry", "register width/mask/addressing agree across Set, Get, UpdateIfGreater and Merge", 5)
 	r.Rule("C14.index", "index = top log2m bits of the hash; rank = clz((hash << log2m) | guard bit) + 1", 2)
 	r.Rule("C14.serial", "GetBytes ~ BuildHyperLogLog agree on the layout", 1)
+	r.Rule("C14.offer-pure", "what Offer does with an item depends on the item and the registers only: no offering method decides on a field of the counter that an offering method assigns, unless the test is guarded by a validity flag (a remembered 'last item' whose zero value passes for item 0 makes the result depend on the history of offers)", 1)
+	c14OfferPure(p, r)
 	r.Rule("C14.estimate-pure", "Cardinality() is a function of the registers: it (and the helpers it calls on the counter) assigns no field of the counter, so no estimate survives a later change of the registers", 1)
 	c14EstimatePure(p, r)
 	r.Rule("C14.args", "no call passes two same-typed variables in each other's parameter position (precision and register count are both uint32)", 0)
@@ -562,6 +565,16 @@ func c14Widen(p *core.Program, r *core.Report) {
 			}
 			n++
 			be, ok := ast.Unparen(call.Args[0]).(*ast.BinaryExpr)
+			if ok && be.Op == token.QUO && tb.Kind() == types.Float64 {
+				// a reciprocal taken in integers (1 / (1 << v)) is 0 for every v > 0: the fraction is
+				// gone before the conversion sees it
+				if atv, ok := info.Types[be]; ok && atv.Value == nil {
+					if ab, ok := atv.Type.Underlying().(*types.Basic); ok && ab.Info()&types.IsInteger != 0 {
+						probs = append(probs, fmt.Sprintf("%s is an integer division converted to float afterwards: the fractional part is already lost", stripSpaces(types.ExprString(be))))
+					}
+				}
+				return true
+			}
 			if !ok || (be.Op != token.MUL && be.Op != token.SHL) {
 				return true
 			}
@@ -1222,4 +1235,115 @@ func c14HashWidth(p *core.Program, r *core.Report) {
 	if n == 0 {
 		r.Info("C14.hash-width", "util/hll", "-", "no call of a top-bits routine")
 	}
+}
+
+// c14OfferPure: the offering methods of the counter (Offer*, and the unexported helpers they call on
+// the receiver) branch on no scalar field of the counter that one of them assigns. Registers are
+// updated through the register set, configuration fields are never assigned after construction, so
+// today no field is both: a field that is remembers something about earlier offers.
+func c14OfferPure(p *core.Program, r *core.Report) {
+	t := namedIn(p, "util/hll", "HyperLogLog")
+	if t == nil {
+		r.Undec("C14.offer-pure", "util/hll.HyperLogLog", "-", "type not found")
+		return
+	}
+	var offers []*core.FuncInfo
+	seen := map[*core.FuncInfo]bool{}
+	for _, fi := range p.MethodsOf(t) {
+		if fi.Decl.Body != nil && strings.HasPrefix(fi.Obj.Name(), "Offer") {
+			offers = append(offers, fi)
+			seen[fi] = true
+		}
+	}
+	for k := 0; k < len(offers); k++ {
+		fi := offers[k]
+		info := fi.Pkg.TypesInfo
+		ast.Inspect(fi.Decl.Body, func(n ast.Node) bool {
+			if call, ok := n.(*ast.CallExpr); ok {
+				if sel, ok := call.Fun.(*ast.SelectorExpr); ok {
+					if fn, _ := info.Uses[sel.Sel].(*types.Func); fn != nil && core.RecvNamed(fn) != nil && core.RecvNamed(fn).Obj() == t.Obj() {
+						if cf := p.FuncOf(fn); cf != nil && cf.Decl.Body != nil && !seen[cf] {
+							seen[cf] = true
+							offers = append(offers, cf)
+						}
+					}
+				}
+			}
+			return true
+		})
+	}
+	if len(offers) == 0 {
+		r.Undec("C14.offer-pure", "util/hll.HyperLogLog", "-", "no offering method")
+		return
+	}
+	assigned := map[types.Object]string{}
+	tested := map[types.Object]string{}
+	fieldOf := func(fi *core.FuncInfo, e ast.Expr) types.Object {
+		sel, ok := ast.Unparen(e).(*ast.SelectorExpr)
+		if !ok {
+			return nil
+		}
+		id, ok := ast.Unparen(sel.X).(*ast.Ident)
+		if !ok || id.Name != recvName(fi) {
+			return nil
+		}
+		v, _ := fi.Pkg.TypesInfo.ObjectOf(sel.Sel).(*types.Var)
+		if v == nil || !v.IsField() {
+			return nil
+		}
+		return v
+	}
+	for _, fi := range offers {
+		ast.Inspect(fi.Decl.Body, func(n ast.Node) bool {
+			switch v := n.(type) {
+			case *ast.AssignStmt:
+				for _, l := range v.Lhs {
+					if f := fieldOf(fi, l); f != nil {
+						assigned[f] = core.FuncName(fi.Obj)
+					}
+				}
+			case *ast.IncDecStmt:
+				if f := fieldOf(fi, v.X); f != nil {
+					assigned[f] = core.FuncName(fi.Obj)
+				}
+			case *ast.IfStmt:
+				// a remembered value guarded by its own validity flag (this.hasLast && o == this.last)
+				// is a sound cache — a repeated item cannot change a register; without the flag the
+				// zero value of the field passes for an item that was never offered
+				var fs []types.Object
+				flagged := false
+				ast.Inspect(v.Cond, func(m ast.Node) bool {
+					if e, ok := m.(ast.Expr); ok {
+						if f := fieldOf(fi, e); f != nil {
+							fs = append(fs, f)
+							if b, ok := f.Type().Underlying().(*types.Basic); ok && b.Kind() == types.Bool {
+								flagged = true
+							}
+						}
+					}
+					return true
+				})
+				if !flagged {
+					for _, f := range fs {
+						tested[f] = core.FuncName(fi.Obj)
+					}
+				}
+			case *ast.SwitchStmt:
+				if v.Tag != nil {
+					if f := fieldOf(fi, v.Tag); f != nil {
+						tested[f] = core.FuncName(fi.Obj)
+					}
+				}
+			}
+			return true
+		})
+	}
+	var probs []string
+	for f, by := range assigned {
+		if in, ok := tested[f]; ok {
+			probs = append(probs, fmt.Sprintf("field %s is assigned by %s and decides a branch of %s: whether an item reaches the registers depends on what was offered before", f.Name(), by, in))
+		}
+	}
+	sort.Strings(probs)
+	fileProbs(r, "C14.offer-pure", "util/hll.(*HyperLogLog).Offer*", p.Pos(offers[0].Decl.Pos()), probs, fmt.Sprintf("%d offering methods branch on no field they assign", len(offers)))
 }
